@@ -280,3 +280,59 @@ def tour(g, make_model, on_step, max_steps=None, rnd=None):
             steps += 1
             cur = t
     return steps, restarts, total - remaining
+
+
+# ---------------------------------------------------------------------------
+# Trim.tla (C08)
+
+def canon_tstate(s):
+    return json.dumps(dict(
+        inp=s['inp'], built=sorted(s['built']), cache=s['cache'],
+        edges=sorted(map(tuple, s['edges'])), changed=s['changed'],
+        frozen=sorted(s['frozen']), trimmed=s['trimmed'],
+        trimio=[sorted(x) for x in s['trimio']]), sort_keys=True)
+
+
+def gen_trim_graph(name, wb, pool, src, choices, settable=None, timeout=1800):
+    d = tlc.new_scratch('trim')
+    mod = f'MC_{name}_{src}'
+    ch = W.tla_set('<<' + W.tla_set(map(W.q, i)) + ', ' + W.tla_set(map(W.q, o)) + '>>'
+                   for i, o in choices)
+    with open(os.path.join(d, mod + '.tla'), 'w') as f:
+        f.write(W.tla_constants(wb, pool, src, mod, settable=settable, extends='Trim',
+                                extra=f'MCTrimChoices == {ch}'))
+    with open(os.path.join(d, 'gen.cfg'), 'w') as f:
+        f.write(W.CONST_CFG + '  TrimChoices <- MCTrimChoices\n'
+                'SPECIFICATION TSpec\nVIEW tview\n'
+                'INVARIANT TrimEquiv\nINVARIANT CoherentT\nINVARIANT InputsMirrorT\n'
+                'INVARIANT FrozenHaveValues\nINVARIANT TPrintInit\n'
+                'ACTION_CONSTRAINT TPrintEdge\n')
+    res = tlc.run(mod, os.path.join(d, 'gen.cfg'), spec_dir=d, workers=1,
+                  library=tlc.SPEC, timeout=timeout, heap='3g')
+    if not res.ok:
+        raise tlc.MachineryFailure(
+            f'Trim model {name}/{src} violates {res.violated}:\n'
+            + '\n'.join(l for l in res.stdout.splitlines()
+                        if not l.startswith('"'))[-3000:])
+    g = Graph()
+    g.tlc = res
+    seen = set()
+    for rec in res.json:
+        if 'init' in rec:
+            k = canon_tstate(rec['init'])
+            g.init = k
+            g.states[k] = rec['init']
+            continue
+        kf, kt = canon_tstate(rec['from']), canon_tstate(rec['to'])
+        g.states.setdefault(kf, rec['from'])
+        g.states.setdefault(kt, rec['to'])
+        ak = json.dumps(rec['act'], sort_keys=True)
+        if (kf, ak) in seen:
+            continue
+        seen.add((kf, ak))
+        g.out[kf].append((rec['act'], rec['ret'], kt))
+    res.stdout, res.json = '', []
+    if len(g.states) != res.distinct:
+        raise tlc.MachineryFailure(
+            f'export incomplete: {len(g.states)} states parsed, TLC found {res.distinct}')
+    return g
